@@ -43,7 +43,7 @@ def masks(D, rng, nvals):
 def gen_cases(tier, seed):
     rng = np.random.default_rng(seed + 7)
     cases = []
-    nvals = 1 if tier == "quick" else 10
+    nvals = 1 if tier == "quick" else 30
     for fam in CLASSES:
         f = zoo.FAM[fam]
         for D in (2, 3, 4, 5):
